@@ -437,6 +437,23 @@ class ColorValue(Value):
                             raw.append(int(255 * item.value.value / 100))
                         check += 'P'
 
+                # validate
+                checks = {
+                    'rgb(': ('NNN', 'PPP'),
+                    'rgba(': ('NNNN', 'PPPN'),
+                    'hsl(': ('NPP',),
+                    'hsla(': ('NPPN',),
+                }
+                if check not in checks[functiontype]:
+                    self._log.error(
+                        'ColorValue has invalid %s) parameters: '
+                        '%s (N=Number, P=Percentage)' % (functiontype, check)
+                    )
+                    if len(raw) not in (3, 4):
+                        # e.g. cut off at the end of input: not a colour
+                        self.wellformed = False
+                        return
+
                 if HSL:
                     # convert to rgb
                     # h is 360 based (circle)
@@ -459,19 +476,6 @@ class ColorValue(Value):
 
                 if len(rgba) < 4:
                     rgba.append(1.0)
-
-                # validate
-                checks = {
-                    'rgb(': ('NNN', 'PPP'),
-                    'rgba(': ('NNNN', 'PPPN'),
-                    'hsl(': ('NPP',),
-                    'hsla(': ('NPPN',),
-                }
-                if check not in checks[functiontype]:
-                    self._log.error(
-                        'ColorValue has invalid %s) parameters: '
-                        '%s (N=Number, P=Percentage)' % (functiontype, check)
-                    )
 
             self._colorType = t
             self._red, self._green, self._blue, self._alpha = tuple(rgba)
@@ -891,6 +895,10 @@ class CSSVariable(CSSFunction):
         # store: name of variable
         store = {'ident': None, 'fallback': None}
         ok, seq, store, unused = ProdParser().parse(cssText, 'CSSVariable', prods)
+        if ok and 'ident' not in store:
+            # e.g. "var(" cut off at the end of input
+            ok = False
+            self._log.error('CSSVariable: No variable name found.')
         self.wellformed = ok
 
         if ok:
